@@ -1,4 +1,5 @@
-import Drpc.Lemmas.StreamInvWire
+import Drpc.Lemmas.StreamInvReader
+import Drpc.Props.C09
 /-
   C07 — Bytes put on the transport always form a valid, non-interleaved frame stream.
   Property theorems only (per-stream part).  All statements are about every reachable state
@@ -227,27 +228,66 @@ example : WellFormed 1 [⟨[1#8], 1, 1, 2, false, false⟩, ⟨[2#8], 1, 1, 3, t
 example : WellFormed 1 [⟨[], 1, 2, 2, true, false⟩, ⟨[], 1, 1, 2, true, false⟩] = false := by decide
 example : WellFormed 1 [⟨[], 2, 1, 2, true, false⟩] = false := by decide
 
+/-- A conforming reader never rejects what the stream put on the transport.  Take any reachable
+    state in which no transport write has failed and the message counter has not wrapped; let the
+    bytes of all completed transport writes be fed to the reference reassembly of C09 (which is
+    what `Reader.ReadPacket` computes for every chunking, `C09.run_eq_reference`) with a maximum
+    `mx` that every packet of the stream respects.  Then the reassembly never ends in a
+    ProtocolError: it consumes every frame and reports the transport's own end-of-stream error.
+    Hypotheses that are about the caller, not the stream: the stream id is not 0
+    (`drpcmanager` starts at 1), `RawWrite` is only used with kinds < 64 (the six wire bits —
+    `C08.frame_roundtrip_kind64_counterexample`), and the size bound (`packetsFit`).
+    `_partial`: per-stream statement; the connection-level statement (frames of successive
+    streams on one transport) needs the manager model (`streams_ordered_on_wire`, DESIGN C07). -/
+theorem conforming_reader_never_rejects_partial {s : St} (h : Reach s) (hnw : s.sh.midN < 2^64)
+    (hok : s.sh.failed = false) (hsid : 1 ≤ s.opts.sid.toNat)
+    (hkind : ∀ f ∈ s.sh.hist, f.kind.toNat < 64)
+    (mx final : Nat) (hmx : mx < 2^64) (hfit : packetsFit mx none s.sh.wire.flatten = true) :
+    (C09.reference mx final ((s.sh.wire.flatten.map appendFrame).flatten)).2 = .transport final := by
+  have hflat := wire_is_history h hok
+  have hpre : s.sh.hist = s.sh.wire.flatten ++ (inflightFrames s.sh ++ s.sh.wbuf) := by
+    rw [← hflat, List.append_assoc]
+  have hwf : WellFormed s.opts.sid s.sh.wire.flatten = true :=
+    WellFormed.prefix (hpre ▸ wire_wellformed h hnw)
+  have hmem : ∀ f ∈ s.sh.wire.flatten, f ∈ s.sh.hist := by
+    intro f hf; rw [hpre]; exact List.mem_append_left _ hf
+  have hall : ∀ f ∈ s.sh.wire.flatten, f.kind.toNat < 64 ∧ 1 ≤ f.mid.toNat :=
+    fun f hf => ⟨hkind f (hmem f hf), (reach_wire h).histPos hnw f (hmem f hf)⟩
+  obtain ⟨rid', cur', hd⟩ := drain_wellformed hsid hmx s.sh.wire.flatten none none (1#64, 1#64) none
+    (by simp [Linked]) hwf hfit hall
+  have : encodeFrames s.sh.wire.flatten = (s.sh.wire.flatten.map appendFrame).flatten := rfl
+  simp only [C09.reference, ← this, hd, refEnd]
+  simp
+
 /-- non-vacuity: with a writer threshold of 0 a `Close` on a fresh stream parks in the transport
     write of its Close frame (the hypotheses of `single_writer` hold there: a write is in flight,
     the stream is terminated and not finished); after the write completes and the call returns,
     the stream is finished, nothing failed, and the one-frame history is on the wire
-    (the hypotheses of `finished_is_final`, `wire_wellformed`, `wire_is_history` hold there). -/
+    (the hypotheses of `finished_is_final`, `wire_wellformed`, `wire_is_history` and
+    `conforming_reader_never_rejects_partial` hold there). -/
 example : ∃ s s', Reach s ∧ Reach s' ∧
     s.sh.inflight.isSome = true ∧ s.sh.term.isSome = true ∧ s.sh.fin = false ∧
     s'.sh.fin = true ∧ s'.sh.failed = false ∧ s'.sh.midN < 2^64 ∧ s'.sh.hist.length = 1 ∧
-    s'.sh.wire.flatten = s'.sh.hist := by
+    s'.sh.wire.flatten = s'.sh.hist ∧ 1 ≤ s'.opts.sid.toNat ∧
+    s'.sh.hist.all (fun f => decide (f.kind.toNat < 64)) = true ∧
+    packetsFit 4096 none s'.sh.wire.flatten = true := by
   let s : St := call { opts := { wsize := 0 } } 0 .close
   have hr : Reach s := reach_call _ (Reach.init _) ⟨_, rfl⟩
   have hm : (envStep s (.release none)).map (fun x => ((runSolo 64 x 0).sh.fin, (runSolo 64 x 0).sh.failed,
       decide ((runSolo 64 x 0).sh.midN < 2^64), (runSolo 64 x 0).sh.hist.length,
-      decide ((runSolo 64 x 0).sh.wire.flatten = (runSolo 64 x 0).sh.hist))) = some (true, false, true, 1, true) := by
+      decide ((runSolo 64 x 0).sh.wire.flatten = (runSolo 64 x 0).sh.hist))) =
+      some (true, false, true, 1, true) := by
+    decide
+  have hm2 : (envStep s (.release none)).map (fun x => (decide (1 ≤ (runSolo 64 x 0).opts.sid.toNat),
+      (runSolo 64 x 0).sh.hist.all (fun f => decide (f.kind.toNat < 64)),
+      packetsFit 4096 none (runSolo 64 x 0).sh.wire.flatten)) = some (true, true, true) := by
     decide
   cases he : envStep s (.release none) with
   | none => rw [he] at hm; cases hm
   | some x =>
-    rw [he] at hm
-    simp only [Option.map_some, Option.some.injEq, Prod.mk.injEq, decide_eq_true_eq] at hm
+    rw [he] at hm hm2
+    simp only [Option.map_some, Option.some.injEq, Prod.mk.injEq, decide_eq_true_eq] at hm hm2
     exact ⟨s, runSolo 64 x 0, hr, reach_runSolo _ _ (hr.env he), by decide, by decide, by decide,
-      hm.1, hm.2.1, hm.2.2.1, hm.2.2.2.1, hm.2.2.2.2⟩
+      hm.1, hm.2.1, hm.2.2.1, hm.2.2.2.1, hm.2.2.2.2, hm2.1, hm2.2.1, hm2.2.2⟩
 
 end Drpc.Props.C07
